@@ -6,11 +6,17 @@ A program is a plain list of operations over D Deferreds:
                                      (addCallback / addErrback / addBoth / addCallbacks)
                                      behaviours: "val" return a fresh value, "raise" raise,
                                      "fail" return a Failure, "pass" return the argument,
+                                     "raisef" raise a Failure instance, "raisefv" the same built with
+                                     captureVars=True, "reraise" raise the Failure received (or a fresh
+                                     exception when the argument is not a Failure),
                                      "d<j>" return Deferred j (j != i)
     ["fire", i, mode]                mode in ok (callback(value)) | fail (errback(Failure))
                                      | cbfail (callback(Failure))
     ["pause", i]
     ["unpause", i]                   (ignored unless the harness itself has an unmatched pause(i))
+
+Optional case keys: "debug" (Deferred debugging on), "cls" (one letter per Deferred: P plain Deferred,
+S instance of a user subclass, T instance of a subclass of that subclass; both defined once per process).
 
 run_case executes it on real twisted Deferreds and on Model (a recursive, naive
 interpreter written from the documented chaining rules) and compares, after
@@ -25,7 +31,7 @@ META = dict(
     property="C01",
     level="exploration",
     technique="complete enumeration of all 5-step (thorough: 6-step, and 5-step over 24 operations) programs over 2 Deferreds and a 16-operation alphabet, plus Hypothesis programs built from chaining scenario fragments over up to 6 Deferreds, against a recursive reference interpreter; compared after every operation",
-    level_text="Every program of length <= 5 (quick) / <= 6 (thorough; plus length <= 5 over the 24-operation alphabet) over two Deferreds and the 16-operation alphabet ALPHABET16 is executed, up to renaming of the two Deferreds and leaving out programs that contain an unpause the harness ignores (those are equal to a shorter program); each length-L program also checks all its prefixes, because the comparison is made after every operation. Beyond that scope programs of up to 24 operations over 2..6 Deferreds are sampled with Hypothesis from scenario fragments (chains, inner-first / outer-first firing, callbacks added after a Deferred was returned, pauses of waiter and of inner Deferred, one Deferred returned twice, cycles). A smaller complete scope (one step shorter) and a fifth of the Hypothesis programs run with Deferred debugging switched on (documented to change only diagnostics). Not a proof: exhaustive only inside the small scope.",
+    level_text="Every program of length <= 5 (quick) / <= 6 (thorough; plus length <= 5 over the 24-operation alphabet) over two Deferreds and the 16-operation alphabet ALPHABET16 is executed, up to renaming of the two Deferreds and leaving out programs that contain an unpause the harness ignores (those are equal to a shorter program); each length-L program also checks all its prefixes, because the comparison is made after every operation. Beyond that scope programs of up to 24 operations over 2..6 Deferreds are sampled with Hypothesis from scenario fragments (chains, inner-first / outer-first firing, callbacks added after a Deferred was returned, pauses of waiter and of inner Deferred, one Deferred returned twice, cycles). Further, smaller complete scopes add callbacks that raise Failure instances (alphabet a20) and Deferreds that are instances of a Deferred subclass / of a subclass of a subclass (cls=TT, TS, ST); Hypothesis draws both freely. A smaller complete scope (one step shorter) and a fifth of the Hypothesis programs run with Deferred debugging switched on (documented to change only diagnostics). Not a proof: exhaustive only inside the small scope.",
     level_note="Trusted base: the reference interpreter in this file (class Model, mode 'spec'), written from the Deferred docstrings/howto: callbacks run in order, a returned Deferred with a usable result is consumed (its result becomes None), otherwise the waiter is paused and resumed through a continuation that hands the result over. Callbacks in the programs never call back into Deferreds (no re-entrancy), never return the Deferred they are attached to, and only the harness's own pauses are unpaused.",
     design_ref="§5 C01",
     rule="case = {D, ops}. Non-trivial = some callback returned a Deferred and some callback ran after that (anywhere in the program); distinct by the op list. Classes count what the reference interpreter saw: result stolen from a fired Deferred, waiter parked on an unfired / paused / chained Deferred, hand-over through a continuation, hand-over to a waiter that is still paused, AlreadyCalledError, callbacks run after a hand-over.",
@@ -71,7 +77,8 @@ class Model:
     the whole run and leaves the remaining callbacks where they are).
     """
 
-    def __init__(self, n, mode="spec"):
+    def __init__(self, n, mode="spec", cls=""):
+        self.cls = cls            # only for the class histogram
         self.ds = [_MD(i) for i in range(n)]
         self.log = []
         self.mode = mode
@@ -152,9 +159,21 @@ class Model:
                 d.result = ("f", "y%d" % cid)
             elif beh == "pass":
                 pass
+            elif beh in ("raisef", "raisefv"):
+                self.ev.add("callback raised a Failure instance")
+                d.result = ("f", "z%d" % cid)
+            elif beh == "reraise":
+                if d.result[0] == "f":
+                    self.ev.add("callback raised a Failure instance")   # the one it received; unchanged
+                else:
+                    d.result = ("f", "w%d" % cid)
             else:
                 j = int(beh[1:])
                 r = self.ds[j]
+                if self.cls[j:j + 1] in ("S", "T"):
+                    self.ev.add("callback returned an instance of a Deferred subclass")
+                if self.cls[j:j + 1] == "T":
+                    self.ev.add("callback returned an instance of a second-level Deferred subclass")
                 if self.returned_deferred_at is None:
                     self.returned_deferred_at = len(self.log)
                 if r.result is NO or r.result[0] == "d" or r.paused:
@@ -190,7 +209,7 @@ def _valid(op, D):
         for b in _sides(op)[:2]:
             if b is None:
                 continue
-            if b in ("val", "raise", "fail", "pass"):
+            if b in ("val", "raise", "fail", "pass", "raisef", "raisefv", "reraise"):
                 continue
             if isinstance(b, str) and b[:1] == "d" and b[1:].isdigit() and 0 <= int(b[1:]) < D \
                     and int(b[1:]) != op[1]:
@@ -212,7 +231,24 @@ def _sides(op):
     return op[3], op[4], "c", "e"
 
 
-def _execute(ops, D, mode, stats=None):
+_CLASSES = {}
+
+
+def _classes():
+    """P/S/T -> class; the two subclasses are defined once per process."""
+    if not _CLASSES:
+        from twisted.internet.defer import Deferred
+
+        class VerifSub(Deferred):
+            pass
+
+        class VerifSubSub(VerifSub):
+            pass
+        _CLASSES.update(P=Deferred, S=VerifSub, T=VerifSubSub)
+    return _CLASSES
+
+
+def _execute(ops, D, mode, stats=None, cls=""):
     """Run the program on twisted and on Model(mode); first mismatch or None.
 
     A mismatch is (kind, op index, text)."""
@@ -221,10 +257,11 @@ def _execute(ops, D, mode, stats=None):
     Deferred = defer.Deferred
     CONT = defer._CONTINUE
 
-    reals = [Deferred() for _ in range(D)]
+    C = _classes()
+    reals = [C.get(cls[k:k + 1], Deferred)() for k in range(D)]
     index = {id(d): k for k, d in enumerate(reals)}
     rlog = []
-    model = Model(D, mode)
+    model = Model(D, mode, cls)
     mlog = model.log
     own_pause = [0] * D
 
@@ -256,6 +293,18 @@ def _execute(ops, D, mode, stats=None):
             def f(arg):
                 rlog.append((cid, side, canon(arg)))
                 return arg
+        elif beh in ("raisef", "raisefv"):
+            cv = beh == "raisefv"
+
+            def f(arg):
+                rlog.append((cid, side, canon(arg)))
+                raise Failure(TagError("z%d" % cid), captureVars=cv)
+        elif beh == "reraise":
+            def f(arg):
+                rlog.append((cid, side, canon(arg)))
+                if isinstance(arg, Failure):
+                    raise arg
+                raise TagError("w%d" % cid)
         else:
             target = reals[int(beh[1:])]
 
@@ -377,7 +426,7 @@ def _log_mismatch(n, op, rlog, mlog):
 
 
 def _key(case):
-    return ("dbg" if case.get("debug") else "") + "%d|" % case["D"] + ";".join(",".join(str(x) for x in op) for op in case["ops"])
+    return ("dbg" if case.get("debug") else "") + case.get("cls", "") + "%d|" % case["D"] + ";".join(",".join(str(x) for x in op) for op in case["ops"])
 
 
 def run_case(ctx, case):
@@ -400,13 +449,16 @@ def _run_case(ctx, case):
     ops = case["ops"]
     if not 1 <= D <= MAX_D:
         return
+    cls = case.get("cls", "")
+    if not isinstance(cls, str) or any(c not in "PST" for c in cls):
+        return
     stats = {}
-    m = _execute(ops, D, "spec", stats)
+    m = _execute(ops, D, "spec", stats, cls)
     if m is not None:
         # Which root cause?  Re-run against the interpreter with the one listed
         # deviation; only a program that agrees with it at *every* step is
         # attributed to that deviation.
-        m2 = _execute(ops, D, "strand")
+        m2 = _execute(ops, D, "strand", None, cls)
         if m2 is None:
             ctx.violation(KNOWN_STRAND_SIG, case,
                           "program %r: %s. (Real behaviour = reference interpreter + 'a hand-over "
@@ -464,7 +516,18 @@ def _alphabet24():
     return ops
 
 
-ALPHABETS = {"a16": ALPHABET16, "a24": _alphabet24()}
+def _alphabet20():
+    ops = []
+    base = _alphabet16()
+    for i in (0, 1):
+        ops += base[8 * i:8 * i + 8] + [
+            ["add", i, "both", "raisef", None],     # raises a Failure instance whatever it got
+            ["add", i, "eb", None, "reraise"],      # raises the Failure it received
+        ]
+    return ops
+
+
+ALPHABETS = {"a16": ALPHABET16, "a24": _alphabet24(), "a20": _alphabet20()}
 
 
 def _enum_shard(ctx, arg):
@@ -477,7 +540,9 @@ def _enum_shard(ctx, arg):
     the same run as the shorter program without that step, which is a prefix
     of other enumerated programs."""
     name, length, prefix = arg
-    debug = name.endswith("+debug")
+    flags = name.split("+")[1:]
+    debug = "debug" in flags
+    cls = "".join(f[4:] for f in flags if f.startswith("cls="))
     name = name.split("+")[0]
     A = ALPHABETS[name]
     n = len(A)
@@ -501,7 +566,12 @@ def _enum_shard(ctx, arg):
         while True:
             seq = list(prefix) + idx
             if ok(seq):
-                yield dict(D=2, ops=[A[x] for x in seq], debug=True) if debug else dict(D=2, ops=[A[x] for x in seq])
+                c = dict(D=2, ops=[A[x] for x in seq])
+                if debug:
+                    c["debug"] = True
+                if cls:
+                    c["cls"] = cls
+                yield c
             else:
                 ctx.extra["skipped_equal_to_shorter_program"] = \
                     ctx.extra.get("skipped_equal_to_shorter_program", 0) + 1
@@ -527,7 +597,7 @@ def _enum_args(name, length):
 # ---------------------------------------------------------------------------
 # Hypothesis: scenario fragments over up to 6 Deferreds.
 
-SIMPLE = ["val", "raise", "fail", "pass"]
+SIMPLE = ["val", "val", "raise", "fail", "pass", "pass", "raisef", "raisefv", "reraise"]
 
 
 @st.composite
@@ -641,17 +711,25 @@ def programs(draw):
             b = draw(st.integers(0, len(ops) - 1))
             ops[a], ops[b] = ops[b], ops[a]
     case = dict(D=D, ops=ops[:24])
+    cls = "".join(draw(st.lists(st.sampled_from("PPST"), min_size=D, max_size=D)))
+    if cls.strip("P"):
+        case["cls"] = cls
     if draw(st.sampled_from([False, False, False, False, True])):
         case["debug"] = True
     return case
 
 
 def _hyp_shard(ctx, i):
-    hyp_run(ctx, programs(), run_case, ctx.pick(2500, 20000), label="frag%d" % i)
+    hyp_run(ctx, programs(), run_case, ctx.pick(2200, 20000), label="frag%d" % i)
 
 
 def run(ctx):
-    scopes = [("a16", ctx.pick(5, 6)), ("a16+debug", ctx.pick(4, 5))] + ([("a24", 5)] if ctx.thorough else [])
+    k = ctx.pick(4, 5)
+    # "+cls=XY": the two Deferreds are instances of those classes; TS and ST together make up for the
+    # mirror-image reduction, which is only a symmetry when both have the same class.
+    scopes = [("a16", ctx.pick(5, 6)), ("a20", k), ("a20+debug", k - 1),
+              ("a16+cls=TT", k), ("a16+cls=TS", k), ("a16+cls=ST", k)] \
+        + ([("a24", 5), ("a16+debug", 5)] if ctx.thorough else [])
     args = []
     for name, length in scopes:
         args += _enum_args(name, length)
@@ -660,8 +738,8 @@ def run(ctx):
     ctx.shards(_enum_shard, args, procs=None if ctx.thorough else 1)
     ctx.extra["exhaustive_scope"] = dict(
         deferreds=2,
-        scopes=[dict(alphabet=ALPHABETS[name.split("+")[0]], length=length, debugging=name.endswith("+debug"))
-                for name, length in scopes],
+        alphabets=ALPHABETS,
+        scopes=[dict(scope=name, length=length) for name, length in scopes],
         note="every program of that length whose first operation is on Deferred 0 (the other half is "
              "its mirror image) and that contains no harness-ignored unpause; the comparison after "
              "every operation covers all shorter programs as prefixes")
